@@ -144,6 +144,122 @@ func c13CheckTwo(c c13Two) engine.Result {
 	return res
 }
 
+// ---- register coverage -------------------------------------------------------------------------------
+//
+// The bit-serial CRC is a state machine over a 32-bit register. Four consecutive message bytes act as
+// a bijection on the register, so (a) the 2^32 strings of length 4 drive the register through every
+// state exactly once (thorough tier), and (b) any chosen register value can be reached behind any
+// prefix by solving for four bytes (ref.ForgeCRC). Both register conventions are covered: the
+// "direct" one (register == CRC of the bytes so far) and the "augmented" one this library uses
+// (register * x^32 == CRC of the bytes so far).
+
+func c13Shift32(r uint32) uint32 {
+	for i := 0; i < 32; i++ {
+		if r&0x80000000 != 0 {
+			r = r<<1 ^ 0x04C11DB7
+		} else {
+			r <<= 1
+		}
+	}
+	return r
+}
+
+func c13CornerValues() []uint32 {
+	out := []uint32{0, 0xFFFFFFFF, 0x04C11DB7, 0x84C11DB7, 0x46AF6449, 0x02608EDB, 0x82608EDB, 0xFB3EE248, 0x7FFFFFFE, 0xAAAAAAAA, 0x55555555}
+	for k := 0; k < 32; k++ {
+		out = append(out, 1<<uint(k), ^uint32(1<<uint(k)))
+	}
+	return out
+}
+
+var c13CornerPrefixes = [][]byte{
+	{},
+	{0x00},
+	{0xFC, 0x30, 0x25, 0x00, 0x00, 0x00, 0x00, 0x00},
+	{0x02, 0xB0, 0x1D, 0x00, 0x01, 0xC1, 0x00, 0x00, 0xE1, 0x00, 0xF0, 0x00},
+	bytes.Repeat([]byte{0xFF}, 183),
+}
+
+type c13Corner struct {
+	Register  uint32 `json:"register_value"`
+	Augmented bool   `json:"augmented_convention"`
+}
+
+func c13CheckCorner(c c13Corner) engine.Result {
+	var res engine.Result
+	target := c.Register
+	if c.Augmented {
+		target = c13Shift32(c.Register)
+	}
+	scratch := make([]byte, 0, 256)
+	engine.Guard(&res, "ComputeCRC", func() {
+		for _, pre := range c13CornerPrefixes {
+			msg := append(append([]byte(nil), pre...), 0, 0, 0, 0)
+			if !ref.ForgeCRC(msg, len(pre), target) {
+				res.Failf("harness|crc-forgery-failed", "prefix of %d bytes, target %08x", len(pre), target)
+				return
+			}
+			c13One(&res, msg, scratch)
+			res.Nontrivial++
+			for _, tail := range [][]byte{{0x00}, {0xFF}, {0x80}, {0x7F}, {0x01}, {0x00, 0x00, 0x00, 0x00, 0x00}, {0xC1, 0x8E, 0x56, 0x6F, 0x11}} {
+				c13One(&res, append(append([]byte(nil), msg...), tail...), scratch)
+				res.Nontrivial++
+			}
+		}
+	})
+	res.Outcome(c.Register%13, c.Augmented)
+	return res
+}
+
+type c13Quad struct {
+	First int `json:"first_byte"`
+}
+
+// c13CheckQuad: all 2^24 strings of length 4 with one first byte, against the bit-serial reference
+// advanced byte by byte (value only; the residue clause is covered by the other scenarios).
+func c13CheckQuad(c c13Quad) engine.Result {
+	var res engine.Result
+	step := func(crc uint32, x byte) uint32 {
+		crc ^= uint32(x) << 24
+		for i := 0; i < 8; i++ {
+			if crc&0x80000000 != 0 {
+				crc = crc<<1 ^ 0x04C11DB7
+			} else {
+				crc <<= 1
+			}
+		}
+		return crc
+	}
+	x := make([]byte, 4)
+	x[0] = byte(c.First)
+	r0 := step(0xFFFFFFFF, x[0])
+	engine.Guard(&res, "ComputeCRC", func() {
+		for b := 0; b < 256; b++ {
+			x[1] = byte(b)
+			r1 := step(r0, x[1])
+			for d := 0; d < 256; d++ {
+				x[2] = byte(d)
+				r2 := step(r1, x[2])
+				for e := 0; e < 256; e++ {
+					x[3] = byte(e)
+					want := step(r2, x[3])
+					got := gots.ComputeCRC(x)
+					if len(got) != 4 || binary.BigEndian.Uint32(got) != want {
+						res.Failf("ComputeCRC|value", "ComputeCRC(% x) = % x want %08x", x, got, want)
+						if len(res.Fail) > 4 {
+							return
+						}
+					}
+				}
+			}
+		}
+	})
+	res.Evals = 1 << 24
+	res.Nontrivial = 1 << 24
+	res.Outcome(c.First)
+	return res
+}
+
 type c13Emit struct {
 	Kind string `json:"kind"`
 	Seed int    `json:"seed"`
@@ -301,6 +417,33 @@ func init() {
 					}
 				},
 				Check: c13CheckTwo, Batch: 4,
+			},
+			&engine.Enum[c13Corner]{
+				Name: "register-corners",
+				Rule: "75 corner values of the 32-bit CRC register (0, all ones, the generator with and without its top bit, the library's pre-conditioned initial value, every single-bit value 2^k and every all-but-one-bit value, alternating patterns) x both register conventions (direct / augmented) x 5 prefixes (empty, one byte, SCTE-35 and PMT section starts, 183 x 0xFF): four bytes are solved for so that the register holds exactly that value after prefix+4 bytes; that string and the same string followed by 7 tails (00, FF, 80, 7F, 01, five zero bytes, five mixed bytes) are compared with the reference CRC and checked for zero residue; non-trivial = each string",
+				Gen: func(r *engine.Run, emit func(c13Corner)) {
+					for _, v := range c13CornerValues() {
+						emit(c13Corner{v, false})
+						emit(c13Corner{v, true})
+					}
+				},
+				Check: c13CheckCorner, Batch: 4,
+			},
+			&engine.Enum[c13Quad]{
+				Name: "all-four-byte-strings",
+				Rule: "thorough tier: all 2^32 byte strings of length 4 (one case per first byte; four message bytes are a bijection on the register, so the register passes through each of its 2^32 states) compared with the bit-serial reference; quick tier: the 16 x 2^24 strings whose first byte is one of 16 values (register-corners is the directed quick-tier stand-in for the rest)",
+				Gen: func(r *engine.Run, emit func(c13Quad)) {
+					if !r.Thorough() {
+						for _, a := range []int{0x00, 0x01, 0x02, 0x3F, 0x40, 0x47, 0x55, 0x7F, 0x80, 0xAA, 0xB0, 0xC1, 0xF0, 0xFC, 0xFE, 0xFF} {
+							emit(c13Quad{a})
+						}
+						return
+					}
+					for a := 0; a < 256; a++ {
+						emit(c13Quad{a})
+					}
+				},
+				Check: c13CheckQuad, Batch: 1,
 			},
 			&engine.Enum[c13Emit]{
 				Name: "emitted-sections",
